@@ -294,7 +294,7 @@ class SchemaBuilder(
                         return object_schema["patternProperties"][p]
             elif (
                 len(object_schema["patternProperties"]) == 1
-                and "additionalProperties" not in object_schema
+                and object_schema.get("additionalProperties", False) is False
             ):
                 return next(iter(object_schema["patternProperties"].values()))
         if isinstance(object_schema.get("additionalProperties"), Mapping):
